@@ -685,6 +685,7 @@ def rule_cow(rep, build):
         _cow_function(rep, rid, m, f, excl_summary, report=True)
     rule_cmp(rep, m)
     rule_cmp_semantic(rep, m)
+    rule_assign_semantic(rep, m)
 
 
 def _cow_function(rep, rid, m, f, summ, report):
@@ -973,6 +974,140 @@ def rule_cmp_semantic(rep, m):
                       (" (and %d more)" % (len(bad) - 4) if len(bad) > 4 else ""))
     else:
         rep.instance(rid, n, {"pairs": n})
+
+
+def rule_assign_semantic(rep, m):
+    """D4a: byte_array::operator= has the value semantics of std::vector: after
+    `a = b` the array a holds b's contents and b is unchanged - also when a and b
+    are the same object or already share their block - and the reference count
+    of every block equals the number of arrays that point to it (a block whose
+    count reaches zero is deleted, no other block is).  Evaluated by constant
+    propagation on the representations: no storage, sole owner, and a block
+    shared by two arrays."""
+    from .affine import Machine, Ptr, Unsupported, const_bits, to_int, is_const
+    from .sponge import cbytes
+    rid = "C20.D4a"
+    rep.rule(rid, "byte_array::operator= (NO_STL): a = b gives b's value, leaves b intact, keeps reference counts exact - incl. a = a")
+    f = None
+    for g in m.defined():
+        if re.match(r"^_ZN5ascon10byte_arrayaSERKS0_$", g.name):
+            f = g
+    if f is None:
+        rep.unproved_item(rid, "byte_array::operator=(const byte_array &) is not emitted in the NO_STL witness IR")
+        return
+    t = None
+    for dt in m.ditypes:
+        if dt["name"] == "byte_array_private":
+            t = dt
+    if t is None:
+        raise repo.AnalysisBroken("%s: no debug type for byte_array_private" % rid)
+    off = {mem[0]: mem[1] for mem in t["members"]}
+
+    def block(mc, tag, content, ref):
+        blk = mc.new_obj("blk_" + tag, t["size"], symbolic=False)
+        dat = mc.new_obj("dat_" + tag, max(len(content), 1), symbolic=False)
+        mc.store(dat, cbytes(content or b"\0"))
+        mc.store(Ptr(blk.obj, off["ref"]), const_bits(ref, 64))
+        mc.store(Ptr(blk.obj, off["size"]), const_bits(len(content), 64))
+        mc.store(Ptr(blk.obj, off["capacity"]), const_bits(max(len(content), 1), 64))
+        mc.store_ptr(Ptr(blk.obj, off["data"]), dat)
+        return blk
+
+    def arr(mc, tag, blk):
+        o = mc.new_obj("arr_" + tag, 8, symbolic=False)
+        if blk is None:
+            mc.store(o, const_bits(0, 64))
+        else:
+            mc.store_ptr(o, blk)
+        return o
+    # scenario: (description, builder) ; builder returns (a, b, arrays {name: obj}, blocks {name: (blk, content)})
+    scen = []
+
+    def s_distinct(mc, ca, cb):
+        ba = block(mc, "A", ca, 1) if ca is not None else None
+        bb = block(mc, "B", cb, 1) if cb is not None else None
+        a, b = arr(mc, "a", ba), arr(mc, "b", bb)
+        return a, b, {"a": a, "b": b}
+    for ca in (None, b"\x01\x02"):
+        for cb in (None, b"\x07"):
+            scen.append(("a (%s) = b (%s)" % ("no storage" if ca is None else "sole owner", "no storage" if cb is None else "sole owner"),
+                         lambda mc, ca=ca, cb=cb: s_distinct(mc, ca, cb)))
+
+    def s_self(mc, shared):
+        blk = block(mc, "A", b"\x01\x02\x03", 2 if shared else 1)
+        a = arr(mc, "a", blk)
+        arrs = {"a": a}
+        if shared:
+            arrs["c"] = arr(mc, "c", blk)
+        return a, a, arrs
+    scen.append(("a = a (sole owner)", lambda mc: s_self(mc, False)))
+    scen.append(("a = a (block shared with another array)", lambda mc: s_self(mc, True)))
+
+    def s_shared(mc):
+        blk = block(mc, "A", b"\x05\x06", 2)
+        a, b = arr(mc, "a", blk), arr(mc, "b", blk)
+        return a, b, {"a": a, "b": b}
+    scen.append(("a = b (already sharing one block)", s_shared))
+    scen.append(("a = a (no storage)", lambda mc: (lambda a: (a, a, {"a": a}))(arr(mc, "a", None))))
+    bad, n = [], 0
+    try:
+        for desc, mk in scen:
+            mc = Machine(m)
+            deleted = []
+
+            def del_hook(mc_, args, deleted=deleted):
+                p = args[0]
+                if isinstance(p, Ptr) and p.obj != "null":
+                    deleted.append(p.obj)
+                return None
+            for nm in ("_ZdlPv", "_ZdlPvm", "_ZdaPv", "free"):
+                mc.hooks[nm] = del_hook
+            a, b, arrs = mk(mc)
+
+            def value(o):
+                pp = mc.pmem.get((o.obj, o.off))
+                if pp is None or pp.obj == "null":
+                    return None, b""
+                if pp.obj in deleted:
+                    return pp, None
+                sz = to_int(mc.load(Ptr(pp.obj, off["size"]), 8))
+                dp = mc.pmem.get((pp.obj, off["data"]))
+                if sz is None or (sz and dp is None):
+                    raise Unsupported("array not readable after the assignment")
+                data = bytes(to_int(mc.load(Ptr(dp.obj, k), 1)) for k in range(sz)) if sz else b""
+                return pp, data
+            want = value(b)[1]
+            others = {k: value(o)[1] for k, o in arrs.items() if o is not a}
+            mc.call(f.name, [a, b])
+            n += 1
+            got = value(a)[1]
+            if got is None:
+                bad.append("%s: a points to a deleted block" % desc)
+                continue
+            if got != want:
+                bad.append("%s: a holds %s afterwards, std::vector would hold %s" % (desc, got.hex() or "nothing", want.hex() or "nothing"))
+                continue
+            for k, o in arrs.items():
+                if o is not a and value(o)[1] != others[k]:
+                    bad.append("%s: array %s changed from %s to %s" % (desc, k, others[k].hex(), (value(o)[1] or b"").hex() if value(o)[1] is not None else "a deleted block"))
+            # reference counts
+            cnt = {}
+            for k, o in arrs.items():
+                pp = value(o)[0]
+                if pp is not None:
+                    cnt[pp.obj] = cnt.get(pp.obj, 0) + 1
+            for blkname, c in cnt.items():
+                r = to_int(mc.load(Ptr(blkname, off["ref"]), 8))
+                if r != c:
+                    bad.append("%s: a block referenced by %d array(s) has reference count %s" % (desc, c, r))
+    except Unsupported as e:
+        rep.unproved_item(rid, "byte_array::operator=: %s" % e)
+        return
+    if bad:
+        rep.violation(rid, "byte_array::operator=:value", f.src, "byte_array::operator= (ASCON_NO_STL): " + "; ".join(bad[:3]) +
+                      (" (and %d more)" % (len(bad) - 3) if len(bad) > 3 else ""))
+    else:
+        rep.instance(rid, n, {"scenarios": n})
 
 
 def rule_decoder_semantic(rep, m):
